@@ -86,7 +86,7 @@ def flush(ctx, cases, reqs, impls):
     for c, a, i in zip(cases, answers, impls):
         if c["fail"]:
             ctx.fail({"text": c["text"]}, c["fail"], finding="D20" if c["d20"] and "'" + '"' else None,
-                     model_violates=(a == i) if a is not None else None)
+                     model_violates=None if (a is None or a[0] in ('unsupported', 'parse-failed', 'type-failed')) else (a == i))
 
 
 def finding_still_fails(f):
